@@ -2276,6 +2276,27 @@ func replayC03(c *lib.Ctx, r *run, e *env) error {
 		if resp.Status != 200 {
 			r.mpdFailure(as, in.URL, fmt.Errorf("status %d", resp.Status))
 		}
+	case "periods":
+		in, err := lib.LoadReplayInput[perIn](c.Replay)
+		if err != nil {
+			return err
+		}
+		as := e.byName[in.Asset]
+		if as == nil {
+			return fmt.Errorf("unknown asset %s (assets drawn from the seed are only present with the same seed)", in.Asset)
+		}
+		var periods int
+		var nowMS int64
+		rest := strings.TrimPrefix(in.URL, "/livesim2/")
+		fmt.Sscanf(rest, "periods_%d/", &periods)
+		rest = rest[strings.Index(rest, "/")+1:]
+		prefix := ""
+		if j := strings.Index(rest, as.d.URLPath+"/"); j >= 0 {
+			prefix = rest[:j]
+		}
+		fmt.Sscanf(in.URL[strings.Index(in.URL, "nowMS=")+6:], "%d", &nowMS)
+		r.periodsRun(as, prefix, nowMS, periods)
+		fmt.Printf("replay C03: %s against %s\n", in.URL, in.Single)
 	case "synth":
 		in, err := lib.LoadReplayInput[synthIn](c.Replay)
 		if err != nil {
